@@ -196,6 +196,23 @@ func (f dirFiller) addLines(dir, lang string, n int) {
 		path = dir + "/" + name
 	}
 	file := File{Path: path, Lang: lang}
+	// now and then a byte-for-byte copy of an earlier file of the language (same content in two
+	// places: both count in full)
+	if rapid.IntRange(0, 9).Draw(f.t, "copyOfEarlier") == 9 {
+		var earlier []File
+		for _, x := range *f.files {
+			if x.Lang == lang && len(x.Lines) > 0 {
+				earlier = append(earlier, x)
+			}
+		}
+		if len(earlier) > 0 {
+			src := earlier[rapid.IntRange(0, len(earlier)-1).Draw(f.t, "copiedFile")]
+			file.Lines = append([]Line{}, src.Lines...)
+			file.NoFinalNewline, file.CRLF = src.NoFinalNewline, src.CRLF
+			*f.files = append(*f.files, file)
+			return
+		}
+	}
 	if n < 0 {
 		file.Lines = genLines(f.t, lang)
 	} else {
@@ -1167,6 +1184,14 @@ func classify(tr Tree) pbt.Verdict {
 	add(maxCode >= 100, "file_with_100+_code_lines")
 	add(maxFiles > 8, "more_than_8_files_of_one_language")
 	add(newLang, "language_beyond_the_first_five")
+	contents := map[string]bool{}
+	for _, f := range tr.Files {
+		if tr.counted(f) && len(f.Lines) > 0 && !isIgnoredName(f.top()) {
+			key := f.Lang + "\x00" + f.content()
+			add(contents[key], "two_files_with_identical_content")
+			contents[key] = true
+		}
+	}
 	add(prefixPair, "language_name_prefix_of_another")
 	add(nestedIgnored, "ignored_name_below_a_subdirectory")
 	truncates, tie := false, false
@@ -1234,7 +1259,7 @@ func checkSweep(s Sweep) pbt.Verdict {
 
 func init() {
 	pbt.SetProperty("C16")
-	pbt.Describe("rapid-generated directory trees: 0-6 (now and then 7-12) immediate subdirectories (ordinary names incl. dotted and hidden ones, names with a blank or a non-ASCII letter, names differing only in letter case, names that extend or end in an ignored name without being one (coca_reporter_old, my_coca_reporter, old.idea), names of the tool's own report files; 0-3 of the ignored names .git/.svn/.hg/.idea/coca_reporter; empty ones; ones holding only files of unknown type; files nested up to three levels, also below directories named .idea / coca_reporter / like another immediate subdirectory), 0-2 files in the root, 2-5 of 13 languages (Java, Go, Python, JavaScript, Kotlin, C, C Header, C++, C#, TypeScript, Ruby, Rust, Shell: names that are prefixes of one another, names with blanks and symbols); every file is 0-9 (now and then 10-40 or 190-260) lines that are unambiguously code (no comment marker, no quote), whole-line comment (line, one-line block, multi-line block without blank lines) or blank, optionally CRLF / no final newline, so code lines per file are known by construction (one, two and three digits); now and then 9-33 small files of one language in one directory; --include-ext subsets in a quarter of the cases (mostly of the tree's languages, now and then an absent one; spelled --include-ext a,b / -i a,b / --include-ext=a,b / one option per value); --top-size in {0,1,2,3,4,5,7,10,30}; flags before or after DIR; DIR given as NAME, NAME/, ./NAME, an absolute path, '.' (working directory = the tree), up/NAME or ../NAME. A quarter of the 'tree' cases are a sequence: after the first tree a second report is produced in the same working directory (coca_reporter of the first run still there), either of the same tree under other options or of another tree sharing directory names with the first; both reports are judged. The sub-check 'sweep' builds, per case, all 16 combinations of (0..3 counted subdirectories) x (an ignored name present) x (an empty directory present). Oracle: the coca binary as a sub-process: cloc DIR --by-directory -> cloc.csv header/rows/cells/summary against the ground truth, stdout rows = csv rows; cloc DIR --top-file --top-size N -> sort_cloc.json lists every counted file with its code lines, stdout has per language min(N, files) rows in non-increasing order whose lengths are the N largest and which can be assigned to distinct files. Non-trivial = at least two counted subdirectories with different language sets; distinct = hash of (subdirectories, path:language:code-lines of every file, include-ext, top-size).",
+	pbt.Describe("rapid-generated directory trees: 0-6 (now and then 7-12) immediate subdirectories (ordinary names incl. dotted and hidden ones, names with a blank or a non-ASCII letter, names differing only in letter case, names that extend or end in an ignored name without being one (coca_reporter_old, my_coca_reporter, old.idea), names of the tool's own report files; 0-3 of the ignored names .git/.svn/.hg/.idea/coca_reporter; empty ones; ones holding only files of unknown type; files nested up to three levels, also below directories named .idea / coca_reporter / like another immediate subdirectory), 0-2 files in the root, 2-5 of 13 languages (Java, Go, Python, JavaScript, Kotlin, C, C Header, C++, C#, TypeScript, Ruby, Rust, Shell: names that are prefixes of one another, names with blanks and symbols); every file is 0-9 (now and then 10-40 or 190-260) lines that are unambiguously code (no comment marker, no quote), whole-line comment (line, one-line block, multi-line block without blank lines) or blank, optionally CRLF / no final newline, so code lines per file are known by construction (one, two and three digits); now and then 9-33 small files of one language in one directory; one file in ten is a byte-for-byte copy of an earlier file of its language; --include-ext subsets in a quarter of the cases (mostly of the tree's languages, now and then an absent one; spelled --include-ext a,b / -i a,b / --include-ext=a,b / one option per value); --top-size in {0,1,2,3,4,5,7,10,30}; flags before or after DIR; DIR given as NAME, NAME/, ./NAME, an absolute path, '.' (working directory = the tree), up/NAME or ../NAME. A quarter of the 'tree' cases are a sequence: after the first tree a second report is produced in the same working directory (coca_reporter of the first run still there), either of the same tree under other options or of another tree sharing directory names with the first; both reports are judged. The sub-check 'sweep' builds, per case, all 16 combinations of (0..3 counted subdirectories) x (an ignored name present) x (an empty directory present). Oracle: the coca binary as a sub-process: cloc DIR --by-directory -> cloc.csv header/rows/cells/summary against the ground truth, stdout rows = csv rows; cloc DIR --top-file --top-size N -> sort_cloc.json lists every counted file with its code lines, stdout has per language min(N, files) rows in non-increasing order whose lengths are the N largest and which can be assigned to distinct files. Non-trivial = at least two counted subdirectories with different language sets; distinct = hash of (subdirectories, path:language:code-lines of every file, include-ext, top-size).",
 		"row order, language column order and the order of equal-sized files are free; stdout rows and csv rows are compared as multisets after the header",
 		"files inside .git/.svn/.hg/.idea/coca_reporter as immediate subdirectories: a language that occurs only there may or may not be named in the header, and such files may or may not be listed by --top-file (the statement does not say); stdout of --top-file is judged against the files that sort_cloc.json lists. Deeper down .idea and coca_reporter are ordinary directories (their files count for the row they are under); .git/.hg/.svn are not generated below the first level (scc's deny list drops them)",
 		"the printed location is only required to be a suffix of the file's path (the tool strips the DIR prefix with TrimLeft, which can eat more)",
@@ -1242,7 +1267,7 @@ func init() {
 		"with DIR = '.' the tool's own coca_reporter directory appears inside the tree while it runs: it is an ignored directory; that form is used for single reports only (a second run would count the first run's JSON/CSV report files as source files of the tree)",
 		"not generated: directory names ending in .git/.hg/.svn (scc's deny list matches by suffix), letter-case variants of the ignored names, .gitignore/.ignore files, symlinks, names with commas, --top-size omitted or negative",
 		"one tree in twelve has 6-8 languages: the by-directory report and sort_cloc.json are judged as usual, the top-file table on stdout is not (the tool prints it for up to five languages only")
-	pbt.Register("tree", 130, 500, genTree, checkTree)
+	pbt.Register("tree", 110, 400, genTree, checkTree)
 	pbt.Register("sweep", 3, 6, genSweep, checkSweep)
 }
 
